@@ -249,6 +249,20 @@ def run(ctx):
     t = ht.div(class_=ex["init"])
     t.remove_class("foo").add_class(" fo ", prepend=True)
     ctx.sample({"history": ex, "class_after": t.attrs.get("class")})
+    # 1b. sizes ordinary elements never reach: thousands of tokens, very long tokens, long style values, many css() arguments
+    if ctx.shard == 0:
+        many = " ".join("t%d" % (k % 700) for k in range(2400))
+        long_tok = "tok-" + "x" * 70000
+        for h in ({"init": many, "ops": [{"op": "remove", "c": "t5"}, {"op": "add", "c": "t5", "prepend": True}, {"op": "remove", "c": "t699"}, {"op": "add", "c": long_tok, "prepend": False},
+                                         {"op": "remove", "c": "t"}, {"op": "remove", "c": long_tok[:-1]}, {"op": "remove", "c": long_tok}]},
+                  {"init": long_tok + " foo " + long_tok + "y", "style": "k:v; " * 30000, "ops": [{"op": "remove", "c": long_tok}, {"op": "style", "s": "a:b;" * 20000, "prepend": True, "html": False},
+                                                                                              {"op": "style", "s": "no-semicolon" * 9000, "prepend": False, "html": False}, {"op": "add", "c": "foo", "prepend": False}]}):
+            ctx.guard(run_history, ctx, h, witness={"history": {"init": h["init"][:200], "ops": str(h["ops"])[:400]}})
+            ctx.case(("big", len(h["init"])), nontrivial=True)
+            ctx.count("very_large_class_values")
+        keys_ = ["k%d_%s" % (k, "aB" if k % 2 else "c_d") for k in range(400)]
+        check_css(ctx, keys_, [("v%d" % k if k % 7 else None) for k in range(400)], None)
+        check_css(ctx, keys_, ["x" * 3000 if k % 50 == 0 else k for k in range(400)], " ")
     # 2. random histories
     for _ in range(ctx.budget(4000, 4000000)):
         ops = []
